@@ -500,6 +500,16 @@ theorem upgrade_handoff_exact (q : WfReq) (frame : Bytes) (hw : WellFormed q)
   simp only [hr, bind, Except.bind]
   simp [hm, hpr, hp, hu, pure, Except.pure]
 
+/-- the same **for every fragmentation**: however the bytes of request and frame are cut into segments (`segs`, any number, any
+    sizes, empty ones included), the hand-off leaves exactly `frame`.  The reader takes its bytes through blocking `read` calls on
+    a stream socket, which deliver the concatenation of the segments (assumption "POSIX read() on a stream socket"); the op `upgf`
+    sends the stream in two segments cut at every kind of offset and the answer of the real server must be the one of `upg`. -/
+theorem upgrade_handoff_any_fragmentation (q : WfReq) (frame : Bytes) (segs : List Bytes) (hw : WellFormed q)
+    (hp : (reqOf q).path.length ≠ 0) (hu : cstr (header (hdrDic q.headers) sUpgrade) = sWebsocket)
+    (hs : segs.flatten = serialize q ++ frame) :
+    upgradeHandOff { inp := segs.flatten } = .ok (some (hdrDic q.headers, { inp := frame })) := by
+  rw [hs]; exact upgrade_handoff_exact q frame hw hp hu
+
 /-- for every stream: when a hand-off happens, what the WebSocket server gets is a suffix of what was there — the HTTP side
     never puts bytes back or skips ahead -/
 theorem upgrade_handoff_consumes_prefix (s : Sock) (h : Dic) (s' : Sock) (hh : upgradeHandOff s = .ok (some (h, s'))) :
@@ -533,6 +543,9 @@ theorem path_decoded_once (p : Bytes) (hq : ∀ c ∈ p, c ≠ 35 ∧ c ≠ 63) 
 theorem decode_inverts_one_escape (p : Bytes) : urlDecode (escPct p) = .ok p := by
   rw [urldecode_total, AslProofs.HttpRange.urlDecodeSpec_escPct]
 
+-- `GET /c HTTP/1.1` + `Upgrade: websocket` followed by two frame bytes: the hand-off happens and leaves the two bytes
+example : (upgradeHandOff { inp := [71, 69, 84, 32, 47, 99, 32, 72, 84, 84, 80, 47, 49, 46, 49, 13, 10, 85, 112, 103, 114, 97, 100, 101, 58, 32,
+    119, 101, 98, 115, 111, 99, 107, 101, 116, 13, 10, 13, 10, 129, 0] }).toOption.map (fun r => r.map (fun x => x.2.inp)) = some (some [129, 0]) := by decide
 -- Range: bytes=5-9 on 36 bytes, bytes=5 (one part), bytes=-4, bytes=40-50, other unit
 example : (rangeAnswer 36 [(sRange, [98, 121, 116, 101, 115, 61, 53, 45, 57])]).toOption = some (.part 5 9) := by decide
 example : (rangeAnswer 36 [(sRange, [98, 121, 116, 101, 115, 61, 53])]).toOption = some (.part 5 35) := by decide
